@@ -634,6 +634,8 @@ fn g_exp() -> BS<Option<(bool, u8, String)>> {
     prop_oneof![
         3 => Just(None),
         5 => (any::<bool>(), 0u8..3, 0u32..=30, 0usize..3).prop_map(|(up, s, e, z)| Some((up, s, format!("{}{}", "0".repeat(z), e)))),
+        // zero-padded exponents: the digit count says nothing about the size
+        2 => (any::<bool>(), 0u8..3, 0u32..=330, proptest::sample::select(vec![7usize, 8, 9, 10, 11, 12, 19, 20, 40])).prop_map(|(up, s, e, z)| Some((up, s, format!("{}{}", "0".repeat(z), e)))),
         3 => (any::<bool>(), 0u8..3, 0u32..=400).prop_map(|(up, s, e)| Some((up, s, e.to_string()))),
         1 => (any::<bool>(), 0u8..3, prop_oneof![Just("99999999999"), Just("2147483647"), Just("2147483648"), Just("4294967296"), Just("99999999999999999999999")])
             .prop_map(|(up, s, e)| Some((up, s, e.to_string()))),
